@@ -149,7 +149,11 @@ def cases(draw, tier="quick"):
 
 @st.composite
 def special_cases(draw):
-    which = draw(st.sampled_from(["bigmag", "bigmag", "wide"]))
+    which = draw(st.sampled_from(["bigmag", "bigmag", "wide", "widevec"]))
+    if which == "widevec":
+        env, recipe, order, pts, layout = draw(gen.wide_vec())
+        return {"env": env, "exprs": [recipe], "strata": ["general"], "order": order, "vstratum": "wide-" + layout,
+                "points": pts, "config": "default", "order2": order[::-1], "newp": {}, "wide": True}
     env, recipe, order, pts = draw(gen.bigmag() if which == "bigmag" else gen.wide())
     return {"env": env, "exprs": [recipe], "strata": ["general"], "order": order, "vstratum": "perm" if which == "bigmag" else "decl",
             "points": pts, "config": "default", "order2": None, "newp": {}, which: True}
@@ -258,6 +262,9 @@ def check(case):
     classes = ["cfg:" + case["config"], "V:" + case["vstratum"]] + ["stratum:" + s for s in set(case["strata"])]
     thr = 1 if case["config"] == "lowthr" else None
     with thresholds(thr), quiet():
+        from harness.common import decoy_model
+        if any([decoy_model(env, r, len(show(r))) for r in exprs]):
+            classes.append("after-name-equal-sibling-model")
         try:
             from harness.algebras import BuildAlg
             b = BuildAlg(env)
@@ -269,9 +276,15 @@ def check(case):
         objs = b.var_objects()
         V = [objs[n] for n in order]
         try:
-            jf = compile_jacobian(es, V)
-            gfs = [compile_gradient(e, V) for e in es]
-            ce = CompiledExpression(es[0], V)
+            # every compile call gets its own list object, which the caller then re-uses for something else (reordered,
+            # grown) BEFORE the first call of the returned callable: the declared order is the one given at compile time
+            Vs = [list(V) for _ in range(len(es) + 2)]
+            jf = compile_jacobian(es, Vs[0])
+            gfs = [compile_gradient(e, Vs[1 + k]) for k, e in enumerate(es)]
+            ce = CompiledExpression(es[0], Vs[-1])
+            for Vl in Vs:
+                Vl.reverse()
+                Vl.insert(0, Vl[-1])
         except Exception as ex:
             return Result.violation(f"compile-raises:{exc_label(ex)}",
                                     f"{[show(r) for r in exprs]} V={order}: {ex!r}", classes)
